@@ -152,10 +152,12 @@ partial def parseStmt (j : LJson) : Except String Stmt := do
     else err "bad sb"
   | "raise" => if h : a.size = 2 then return .raise (← getNat a[1]) else err "bad raise"
   | "w" =>
-    if h : a.size = 2 then
+    if h : a.size = 2 ∨ a.size = 3 then
+      have h1 : 1 < a.size := by omega
+      let mt : Option Nat := if h3 : a.size = 3 then (getNat a[2]).toOption else none
       match a[1] with
-      | .null => return .write none
-      | .str s => return .write (some s)
+      | .null => return .write none mt
+      | .str s => return .write (some s) mt
       | _ => err "bad w"
     else err "bad w"
   | "if" =>
